@@ -334,6 +334,101 @@ fn json_mutation(r: &mut ChaCha20Rng, cls: &str, doc: &Value) -> Option<String> 
     (d != *doc).then(|| serde_json::to_string(&d).unwrap())
 }
 
+
+// ---- special group element encodings --------------------------------------------------------
+/// well-formed-looking encodings of group elements nobody produces honestly: the point at infinity (compressed and
+/// with the uncompressed flag), flag combinations, x = 0, all ones -- for a 48 byte (G1) or 96 byte (G2) field
+fn special_points(len: usize) -> Vec<Vec<u8>> {
+    let mut out = vec![];
+    for first in [0xc0u8, 0x40, 0xe0, 0x80, 0xa0, 0x00] {
+        let mut b = vec![0u8; len];
+        b[0] = first;
+        out.push(b);
+    }
+    let mut b = vec![0u8; len];
+    b[0] = 0xc0;
+    b[len - 1] = 1; // infinity flag with a non-zero coordinate
+    out.push(b);
+    out.push(vec![0xff; len]);
+    out
+}
+
+/// byte strings of 48 / 96 numbers found in the honest JSON documents (signature values and verification keys)
+fn group_element_needles(metas: &[Meta]) -> Vec<Vec<u8>> {
+    fn walk(v: &Value, out: &mut Vec<Vec<u8>>) {
+        match v {
+            Value::Array(a) => {
+                if (a.len() == 48 || a.len() == 96) && a.iter().all(|x| x.as_u64().is_some_and(|n| n < 256)) {
+                    let b: Vec<u8> = a.iter().map(|x| x.as_u64().unwrap() as u8).collect();
+                    if b[0] & 0x80 != 0 && !out.contains(&b) {
+                        out.push(b);
+                    }
+                } else {
+                    a.iter().for_each(|x| walk(x, out));
+                }
+            }
+            Value::Object(o) => o.values().for_each(|x| walk(x, out)),
+            _ => {}
+        }
+    }
+    let mut out = vec![];
+    for m in metas {
+        walk(&m.json, &mut out);
+    }
+    out
+}
+
+/// one honest group element inside a binary encoding replaced, in place, by a special encoding of the same length
+fn special_point_bin(r: &mut ChaCha20Rng, bytes: &[u8], needles: &[Vec<u8>]) -> Option<Vec<u8>> {
+    let mut hits = vec![];
+    for nd in needles {
+        if nd.len() > bytes.len() {
+            continue;
+        }
+        for p in 0..=(bytes.len() - nd.len()) {
+            if bytes[p] == nd[0] && bytes[p..p + nd.len()] == nd[..] {
+                hits.push((p, nd.len()));
+            }
+        }
+    }
+    if hits.is_empty() {
+        return None;
+    }
+    let (p, l) = hits[below(r, hits.len() as u64) as usize];
+    let sp = special_points(l);
+    let mut b = bytes.to_vec();
+    b[p..p + l].copy_from_slice(&sp[below(r, sp.len() as u64) as usize]);
+    Some(b)
+}
+
+/// the same inside a JSON document (arrays of 48 / 96 byte values)
+fn special_point_json(r: &mut ChaCha20Rng, doc: &Value) -> Option<String> {
+    let mut all = vec![];
+    paths(doc, &mut vec![], &mut all);
+    let mut d = doc.clone();
+    let cands: Vec<Vec<String>> = all
+        .into_iter()
+        .filter(|p| {
+            let mut c = doc;
+            for s in p.iter() {
+                c = match s.parse::<usize>() {
+                    Ok(i) if c.is_array() => &c[i],
+                    _ => &c[s.as_str()],
+                };
+            }
+            c.as_array().is_some_and(|a| (a.len() == 48 || a.len() == 96) && a.iter().all(|x| x.is_number()))
+        })
+        .collect();
+    if cands.is_empty() {
+        return None;
+    }
+    let p = cands[below(r, cands.len() as u64) as usize].clone();
+    let len = at(&mut d, &p).as_array().unwrap().len();
+    let sp = special_points(len);
+    *at(&mut d, &p) = json!(sp[below(r, sp.len() as u64) as usize]);
+    Some(d.to_string())
+}
+
 fn text_mutation(r: &mut ChaCha20Rng, s: &str) -> String {
     let mut t = s.to_string();
     match below(r, 9) {
@@ -392,8 +487,22 @@ pub fn generate(c: &Ctx, args: &Args, seed: u64) -> Vec<Task> {
     let json_classes = [
         "overlong_seq", "short_seq", "byte_range", "num_huge", "type_swap", "drop_key", "deep_nest", "long_array", "json_text",
     ];
+    let needles = group_element_needles(&c.store.meta);
     for m in &c.store.meta {
         for enc in &m.encs {
+            // special group element encodings at the place of an honest signature value / verification key
+            for _ in 0..(3 * per) {
+                let (payload, codec) = if enc.codec == "json" {
+                    let Some(t) = special_point_json(&mut r, &m.json) else { break };
+                    (Payload::Json(t.into_bytes()), "json")
+                } else {
+                    let Some(b) = special_point_bin(&mut r, &enc.bytes, &needles) else { break };
+                    (Payload::Bin(b), enc.codec)
+                };
+                case += 1;
+                let label = json!({"mut": "special_point", "pred": "na", "name": m.name});
+                c.tasks_for(&mut tasks, case, "mut", m.ty, &payload, codec, None, &label, false);
+            }
             if enc.codec == "json" {
                 for cls in json_classes {
                     for _ in 0..per {
